@@ -168,6 +168,24 @@ def parseArgs : List String → Option (Args × List String)
     | _ => none
   | toks => (parseParams toks).map (fun (p, r) => (decodeArgs p, r))
 
+/-- More than one member of `params` is called exactly `arguments` (the shape of preflight-F31). -/
+def repeatedArguments : RawParams → Bool
+  | .obj ms => (ms.filter (fun kv => kv.1 == Generated.Preflight.memberArguments)).length ≥ 2
+  | _ => false
+
+def f31Clause : String :=
+  "C12: preflight-F31 repeated `arguments` member: the Mcp-Param headers are validated against the MERGED members, the tool handler receives the last one"
+
+/-- The arguments as the repaired code decodes them, as the pinned tree does (merging repeated members), and whether the
+two can differ at all. -/
+def parseArgsU (toks : List String) : Option (Args × Args × Bool × List String) :=
+  match toks with
+  | tok :: _ =>
+    if tok.startsWith "P" then
+      (parseParams toks).map (fun (p, r) => (decodeArgs p, decodeArgsUnrepaired p, repeatedArguments p, r))
+    else (parseArgs toks).map (fun (a, r) => (a, a, false, r))
+  | [] => none
+
 def parsePrim (tok : String) : Option Prim :=
   if tok.startsWith "S" then (hexB (tail1 tok)).map Prim.str
   else if tok == "B1" then some (.bool true)
@@ -646,16 +664,18 @@ def stepOp (toks : List String) (impl : String) : Verdict :=
   | "vph" :: r =>
     match parseProps r with
     | some (p, r1) =>
-      match parseArgs r1 with
-      | some (a, r2) =>
+      match parseArgsU r1 with
+      | some (a, au, rep, r2) =>
         match parseHdrs r2 with
         | some (h, []) =>
-          let model := match validateParamHeaders std64 p a h with
+          let show_ (a : Args) : String := match validateParamHeaders std64 p a h with
             | none => "ok"
             | some e => if (bindings p).length == 1 then "err " ++ perrTok e else "err"
+          let model := show_ a
           -- monitor: the function accepts iff every binding mirrors the body
           let spec := match a with | .bad => true | _ => (bindings p).all (bindingMirrors a h)
-          let viol := if (impl == "ok") == spec then none
+          let viol := if rep && impl != model && impl == show_ au then some f31Clause
+            else if (impl == "ok") == spec then none
             else if impl != "ok" && f6Like p a h then some "C12: F6 empty-string argument: validateParamHeaders refuses the empty Mcp-Param header the SDK client sends"
             else if impl == "ok" then
               (match (bindings p).find? (fun b => !bindingMirrors a h b) with
@@ -716,6 +736,16 @@ def stepOp (toks : List String) (impl : String) : Verdict :=
       let viol := match obs with
         | some ob => (httpMonitor req ob ins).orElse (fun _ => handlerNameMonitor req ob)
         | none => some s!"C12: the handler did not answer ({impl})"
+      -- preflight-F31: the violation is exactly what merging the repeated `arguments` members (pinned tree) produces
+      let viol := match viol, ins with
+        | some v, [mi] =>
+          if repeatedArguments mi.raw.params then
+            let reqU : Req := { req with content := match req.content with
+              | .msgs b [m] => .msgs b [{ m with args := decodeArgsUnrepaired mi.raw.params }]
+              | c => c }
+            if showOutcome reqU (verdict std64 reqU) obs == impl then some f31Clause else some v
+          else some v
+        | v, _ => v
       { model := showOutcome req o obs, violated := viol }
     | none => bad
   | _ => bad
